@@ -252,7 +252,14 @@ func ext۰reflect۰Value۰Kind(fr *frame, args []value) value {
 
 func ext۰reflect۰Value۰String(fr *frame, args []value) value {
 	// Signature: func (reflect.Value) string
-	return toString(rV2V(args[0]))
+	switch s := rV2V(args[0]).(type) {
+	case string, symStr:
+		return s // the string itself, symbolic bytes included
+	}
+	if t := rV2T(args[0]).t; t != nil {
+		return "<" + t.String() + " Value>"
+	}
+	return "<invalid Value>"
 }
 
 func ext۰reflect۰Value۰Type(fr *frame, args []value) value {
@@ -284,6 +291,8 @@ func ext۰reflect۰Value۰Len(fr *frame, args []value) value {
 	switch v := rV2V(args[0]).(type) {
 	case string:
 		return len(v)
+	case symStr:
+		return len(v.b)
 	case array:
 		return len(v)
 	case chan value:
